@@ -55,9 +55,13 @@ def mc_cfg(prop, names, tpls, ticks, comps):
 
 def model_check(rep, prop, tier, scratch):
     if tier == 'quick':
-        cfgs = [('q', (['a', 'b', 'c'], ['T1', 'T2', 'T3'], 3, 3))]
+        # (three names x two ticks and two names x three ticks: 8 k + 59 k states;
+        #  three names x three ticks is 296 k states and 1.5 minutes - thorough)
+        cfgs = [('q2', (['a', 'b', 'c'], ['T1', 'T2', 'T3'], 2, 3)),
+                ('q3', (['a', 'b'], ['T1', 'T2', 'T3'], 3, 3))]
     else:
-        cfgs = [('t3', (['a', 'b', 'c'], ['T1', 'T2', 'T3', 'T4'], 3, 3)),
+        cfgs = [('t33', (['a', 'b', 'c'], ['T1', 'T2', 'T3'], 3, 3)),
+                ('t3', (['a', 'b', 'c'], ['T1', 'T2', 'T3', 'T4'], 3, 3)),
                 ('t4', (['a', 'b', 'c', 'd'], ['T2', 'T3'], 3, 4))]
     for name, args in cfgs:
         cfgname = 'MC_Store_%s_%s' % (prop, name)
@@ -88,7 +92,7 @@ def histories(tier, seed):
                                    tpls=('T1', 'T2', 'T3')))
         if tier == 'quick':
             rng.shuffle(hs)
-            hs = hs[:260]
+            hs = hs[:140]
         else:
             ext = []
             for h in hs:
